@@ -222,8 +222,8 @@ type c21Leaf struct {
 // status of a type with respect to what the property text defines
 type c21TypeStatus struct {
 	Malformed bool // a live tag is outside the documented forms: behaviour unspecified
-	EmbPtr    bool // embedded pointer-to-struct reached
-	EmbOther  bool // embedded named non-struct reached
+	EmbPtr    bool // embedded pointer-to-struct reached (an ordinary field; failures on such types keep their old key)
+	EmbOther  bool // embedded named non-struct reached (likewise)
 	ExpDiffer bool // the two "exported" predicates disagree on a field
 }
 
@@ -252,11 +252,13 @@ func c21RefIterLeaves(ds []c21Decl, path []int, st *c21TypeStatus) []c21Leaf {
 		case 1:
 			out = append(out, c21RefIterLeaves(d.Sub, p, st)...)
 		default:
+			// an embedded field that is not a struct is an ordinary field named after its type
 			if d.Type.Kind() == reflect.Ptr && d.Type.Elem().Kind() == reflect.Struct {
 				st.EmbPtr = true
 			} else {
 				st.EmbOther = true
 			}
+			out = append(out, c21Leaf{Name: t.Name, Path: p, Omit: t.Omit, Order: t.Order, Type: d.Type})
 		}
 	}
 	return out
@@ -271,7 +273,14 @@ func c21RefBuildLeaves(ds []c21Decl, path []int, st *c21TypeStatus) []c21Leaf {
 		}
 		p := append(append([]int{}, path...), i)
 		switch d.Kind {
-		case 0:
+		case 0, 2:
+			if d.Kind == 2 {
+				if d.Type.Kind() == reflect.Ptr && d.Type.Elem().Kind() == reflect.Struct {
+					st.EmbPtr = true
+				} else {
+					st.EmbOther = true
+				}
+			}
 			t := c21RefTagsOf(d.Name, d.Tag)
 			if !t.WF {
 				st.Malformed = true
@@ -279,12 +288,6 @@ func c21RefBuildLeaves(ds []c21Decl, path []int, st *c21TypeStatus) []c21Leaf {
 			out = append(out, c21Leaf{Name: t.Name, Path: p, Type: d.Type})
 		case 1:
 			out = append(out, c21RefBuildLeaves(d.Sub, p, st)...)
-		default:
-			if d.Type.Kind() == reflect.Ptr && d.Type.Elem().Kind() == reflect.Struct {
-				st.EmbPtr = true
-			} else {
-				st.EmbOther = true
-			}
 		}
 	}
 	return out
@@ -639,6 +642,79 @@ type c21Z40 struct {
 	Meta      map[string]int `ce:"omit_never"`
 }
 
+// embedded fields whose type is not a struct: ordinary fields named after their type
+type C21ZMyStr string
+type C21ZMySlice []int
+type C21ZMyMap map[string]int
+type C21ZMyFloat float64
+type C21ZMyBool bool
+type C21ZMyAny interface{}
+type c21zmyint int
+type C21ZEmbMid struct {
+	C21ZMyInt
+	*C21ZInner
+	M int
+}
+type C21ZEmbTop struct {
+	C21ZEmbMid `ce:"order=9"`
+	T          string
+}
+
+type c21Z41 struct { // one of each kind
+	C21ZMyInt
+	C21ZMyStr
+	C21ZMySlice
+	C21ZMyMap
+	C21ZMyFloat
+	C21ZMyBool
+	C21ZMyAny
+	C int
+}
+type c21Z42 struct { // with tags
+	C21ZMyInt   `ce:"name=Count,order=1"`
+	C21ZMyStr   `ce:"omit_empty"`
+	C21ZMySlice `ce:"omit_zero,order=-1"`
+	C21ZMyMap   `ce:"omit_never"`
+	C21ZMyFloat `ce:"omit"`
+	B           int `ce:"order=1"`
+}
+type c21Z43 struct {
+	*C21ZInner `ce:"omit_empty"`
+	C          int
+}
+type c21Z44 struct {
+	*C21ZInner `ce:"omit_never,name=In"`
+	C          int `ce:"order=0"`
+}
+type c21Z45 struct { // a pointer embedded beside a flattened struct
+	*C21ZInner `ce:"order=-1,omit_zero"`
+	C21ZInner2
+	Z int
+}
+type c21Z46 struct { // at depth 1
+	C21ZEmbMid
+	C21ZMyStr `ce:"order=0"`
+	Z         int
+}
+type c21Z47 struct { // at depth 2
+	C21ZEmbTop
+	X int `ce:"order=-2"`
+}
+type c21Z48 struct { // embedded pointers to named non-structs
+	*C21ZMyInt
+	*C21ZMyStr `ce:"omit_empty"`
+	C          int
+}
+type c21Z49 struct { // unexported embedded non-struct: not a field of the document
+	c21zmyint
+	B int
+}
+type c21Z50 struct {
+	C21ZMyAny  `ce:"omit_zero,name=anything"`
+	C21ZMyBool `ce:"omit_zero"`
+	B          int
+}
+
 var c21ZooTypes = []reflect.Type{
 	reflect.TypeOf(c21Z01{}), reflect.TypeOf(c21Z02{}), reflect.TypeOf(c21Z03{}), reflect.TypeOf(c21Z04{}), reflect.TypeOf(c21Z05{}),
 	reflect.TypeOf(c21Z06{}), reflect.TypeOf(c21Z07{}), reflect.TypeOf(c21Z08{}), reflect.TypeOf(c21Z09{}), reflect.TypeOf(c21Z10{}),
@@ -648,6 +724,8 @@ var c21ZooTypes = []reflect.Type{
 	reflect.TypeOf(c21Z26{}), reflect.TypeOf(c21Z27{}), reflect.TypeOf(c21Z28{}), reflect.TypeOf(c21Z29{}), reflect.TypeOf(c21Z30{}),
 	reflect.TypeOf(c21Z31{}), reflect.TypeOf(c21Z32{}), reflect.TypeOf(c21Z33{}), reflect.TypeOf(c21Z34{}), reflect.TypeOf(c21Z35{}),
 	reflect.TypeOf(c21Z36{}), reflect.TypeOf(c21Z37{}), reflect.TypeOf(c21Z38{}), reflect.TypeOf(c21Z39{}), reflect.TypeOf(c21Z40{}),
+	reflect.TypeOf(c21Z41{}), reflect.TypeOf(c21Z42{}), reflect.TypeOf(c21Z43{}), reflect.TypeOf(c21Z44{}), reflect.TypeOf(c21Z45{}),
+	reflect.TypeOf(c21Z46{}), reflect.TypeOf(c21Z47{}), reflect.TypeOf(c21Z48{}), reflect.TypeOf(c21Z49{}), reflect.TypeOf(c21Z50{}),
 }
 
 // ---------------------------------------------------------------------------
@@ -745,9 +823,6 @@ func c21ValsCoq(v reflect.Value, ds []c21Decl, path []int, acc []string) []strin
 		f := v.Field(i)
 		if d.Kind == 1 {
 			acc = c21ValsCoq(f, d.Sub, p, acc)
-			continue
-		}
-		if d.Kind == 2 {
 			continue
 		}
 		kind, isNil, len0 := "KOther", false, false
@@ -907,7 +982,7 @@ func c21AllLeaves(ds []c21Decl, path []int, acc [][]int) [][]int {
 			continue
 		}
 		switch d.Kind {
-		case 0:
+		case 0, 2:
 			acc = append(acc, p)
 		case 1:
 			acc = c21AllLeaves(d.Sub, p, acc)
@@ -967,20 +1042,29 @@ func c21PathIn(p []int, ps [][]int) bool {
 }
 
 // oracle for one iteration; returns "" when the property holds, else (key, expect, got)
+// failures on types with an embedded non-struct field keep the keys under which that defect was first recorded
+func c21EmbKey(st c21TypeStatus, key string) string {
+	if key == "" || !(st.EmbPtr || st.EmbOther) {
+		return key
+	}
+	if !(strings.HasPrefix(key, "C21/iterate/") || strings.HasPrefix(key, "C21/record/") || (strings.HasPrefix(key, "C21/build/") && key != "C21/build/hang")) {
+		return key
+	}
+	if st.EmbPtr {
+		return "C21/embedded-pointer-to-struct"
+	}
+	return "C21/embedded-non-struct"
+}
+
 func c21IterOracle(ty *c21Type, v reflect.Value, snake bool, def int, res c21IterResult) (key, expect, got string) {
+	key, expect, got = c21IterOracle0(ty, v, snake, def, res)
+	return c21EmbKey(ty.IterSt, key), expect, got
+}
+
+func c21IterOracle0(ty *c21Type, v reflect.Value, snake bool, def int, res c21IterResult) (key, expect, got string) {
 	st := ty.IterSt
 	if st.Malformed {
 		return "", "", "" // tags outside the documented forms: nothing is required
-	}
-	if st.EmbPtr || st.EmbOther {
-		if res.Failed {
-			k := "C21/embedded-non-struct"
-			if st.EmbPtr {
-				k = "C21/embedded-pointer-to-struct"
-			}
-			return k, "the exported fields are emitted", "error: " + res.Msg
-		}
-		return "", "", ""
 	}
 	want := c21RefEmitted(ty.IterLv, snake, def, v)
 	if res.Failed {
@@ -1072,9 +1156,12 @@ var c21TypeCodes = map[string]reflect.Type{
 	"leaf": reflect.TypeOf(C21ZLeaf{}), "*leaf": reflect.TypeOf(&C21ZLeaf{}),
 	"inner": reflect.TypeOf(C21ZInner{}), "inner2": reflect.TypeOf(C21ZInner2{}), "deep": reflect.TypeOf(C21ZDeep{}),
 	"myint": reflect.TypeOf(C21ZMyInt(0)), "*inner": reflect.TypeOf(&C21ZInner{}),
+	"mystr": reflect.TypeOf(C21ZMyStr("")), "myslice": reflect.TypeOf(C21ZMySlice(nil)), "mymap": reflect.TypeOf(C21ZMyMap(nil)),
+	"myfloat": reflect.TypeOf(C21ZMyFloat(0)), "*myint": reflect.TypeOf(new(C21ZMyInt)), "mid": reflect.TypeOf(C21ZEmbMid{}),
 }
 var c21LeafCodes = []string{"int", "int", "int", "int8", "uint16", "float64", "string", "string", "bool", "[]int", "[]string", "map", "*int", "*string", "iface", "[0]int", "[2]int", "leaf", "*leaf"}
-var c21EmbedNames = map[string]string{"inner": "C21ZInner", "inner2": "C21ZInner2", "deep": "C21ZDeep", "myint": "C21ZMyInt", "*inner": "C21ZInner"}
+var c21EmbedNames = map[string]string{"inner": "C21ZInner", "inner2": "C21ZInner2", "deep": "C21ZDeep", "myint": "C21ZMyInt", "*inner": "C21ZInner",
+	"mystr": "C21ZMyStr", "myslice": "C21ZMySlice", "mymap": "C21ZMyMap", "myfloat": "C21ZMyFloat", "*myint": "C21ZMyInt", "mid": "C21ZEmbMid"}
 
 func c21TypeOfSpec(sp c21TypeSpec) (t reflect.Type, err error) {
 	if sp.Zoo >= 0 {
@@ -1217,7 +1304,7 @@ func c21GenSpec(rng *rand.Rand, malformedPct int) c21TypeSpec {
 	embedded := map[string]bool{}
 	for i := 0; i < n; i++ {
 		if rng.Intn(7) == 0 {
-			codes := []string{"inner", "inner2", "deep", "inner", "inner2", "myint", "*inner"}
+			codes := []string{"inner", "inner2", "deep", "inner", "inner2", "myint", "*inner", "mystr", "myslice", "mymap", "myfloat", "*myint", "mid", "*inner", "myint"}
 			code := codes[rng.Intn(len(codes))]
 			nm := c21EmbedNames[code]
 			if code == "deep" || code == "inner2" {
@@ -1366,6 +1453,9 @@ func c21LeafCat(t reflect.Type) string {
 		case "str":
 			return "pstr"
 		}
+		if t.Elem() == reflect.TypeOf(C21ZInner{}) {
+			return "pinner"
+		}
 	case reflect.Slice:
 		if c21LeafCat(t.Elem()) == "num" {
 			return "slice"
@@ -1398,6 +1488,8 @@ func c21ValueFor(cat string, id int) (*c21Val, string) {
 		return &c21Val{K: "map", ID: id, Items: []*c21Val{{K: "str", S: "k"}, {K: "int", ID: id}}}, cApp("ACont", cNi(id))
 	case "leaf":
 		return &c21Val{K: "map", ID: id, Items: []*c21Val{{K: "str", S: "V"}, {K: "int", ID: id}}}, cApp("ACont", cNi(id))
+	case "pinner":
+		return &c21Val{K: "map", ID: id, Items: []*c21Val{{K: "str", S: "A"}, {K: "int", ID: id}}}, cApp("ACont", cNi(id))
 	}
 	return &c21Val{K: "int", ID: id}, cApp("AScalar", cNi(id))
 }
@@ -1458,6 +1550,8 @@ func c21ReadLeaf(v reflect.Value) string {
 		}
 	case "leaf":
 		return cApp("ACont", cNi(int(v.Field(0).Int())))
+	case "pinner":
+		return cApp("ACont", cNi(int(v.Elem().Field(0).Int())))
 	}
 	return "?" + fmt.Sprintf("%v", v)
 }
@@ -1913,20 +2007,15 @@ func c21BuildFailKey(d *c21Doc) string {
 
 // the oracle for one document; returns "" or a failure key with expect/got
 func c21BuildOracle(ty *c21Type, ci bool, d *c21Doc, res c21BuildResult) (key, expect, got string) {
+	key, expect, got = c21BuildOracle0(ty, ci, d, res)
+	return c21EmbKey(ty.BldSt, key), expect, got
+}
+
+func c21BuildOracle0(ty *c21Type, ci bool, d *c21Doc, res c21BuildResult) (key, expect, got string) {
 	if res.Hung {
 		return "C21/build/hang", "a result", "no return within 10 s"
 	}
 	if ty.BldSt.Malformed || c21HasCollision(ty) {
-		return "", "", ""
-	}
-	if ty.BldSt.EmbPtr || ty.BldSt.EmbOther {
-		if res.Err {
-			k := "C21/embedded-non-struct"
-			if ty.BldSt.EmbPtr {
-				k = "C21/embedded-pointer-to-struct"
-			}
-			return k, "the exported fields are filled", "error: " + res.Msg
-		}
 		return "", "", ""
 	}
 	exp, ok := c21DocExpect(ty, ci, d)
@@ -2008,7 +2097,7 @@ func c21BuildStep(sp c21TypeSpec, ci bool, d *c21Doc) (ty *c21Type, res c21Build
 	}
 	res = c21Unmarshal(ty, doc, ci)
 	key, expect, got = c21BuildOracle(ty, ci, d, res)
-	if key == "" && !res.Hung && !ty.BldSt.Malformed && !c21HasCollision(ty) && !ty.BldSt.EmbPtr && !ty.BldSt.EmbOther {
+	if key == "" && !res.Hung && !ty.BldSt.Malformed && !c21HasCollision(ty) {
 		// "leaves the others as a document without those keys would"
 		if _, ok := c21DocExpect(ty, ci, d); ok {
 			base := d.withoutUnknown(ty, ci)
@@ -2016,12 +2105,166 @@ func c21BuildStep(sp c21TypeSpec, ci bool, d *c21Doc) (ty *c21Type, res c21Build
 				if bdoc, e2 := c21EncodeCBE(base.events()); e2 == nil {
 					bres := c21Unmarshal(ty, bdoc, ci)
 					if bres.Err != res.Err || !c21MapsEqual(bres.Fields, res.Fields) {
-						return ty, res, "C21/build/unknown-key-disturbs", "as without the unknown keys: " + c21FieldsString(bres.Fields), c21FieldsString(res.Fields), nil
+						return ty, res, c21EmbKey(ty.BldSt, "C21/build/unknown-key-disturbs"), "as without the unknown keys: " + c21FieldsString(bres.Fields), c21FieldsString(res.Fields), nil
 					}
 				}
 			}
 		}
 	}
+	return
+}
+
+// ---------------------------------------------------------------------------
+// The same struct registered as a record type
+
+type c21RecResult struct {
+	Failed   bool
+	ParseBad bool
+	Msg      string
+	Keys     []string
+	Vals     []string
+	Cands    [][][]int
+}
+
+func c21RunRecord(ty *c21Type, v reflect.Value, snake bool, def int) c21RecResult {
+	cfg := c21Cfg(snake, def, true)
+	cfg.Iterator.RecordTypes[ty.T] = "r"
+	es, failed, msg := c21Iterate(v.Interface(), cfg)
+	res := c21RecResult{Failed: failed, Msg: msg}
+	if failed {
+		return res
+	}
+	bad := func() c21RecResult {
+		res.ParseBad = true
+		res.Msg = evsString(es)
+		return res
+	}
+	// bd v rt keys* e rec values* e ed
+	if len(es) < 7 || es[0].K != "bd" || es[1].K != "v" || es[2].K != "rt" || es[len(es)-1].K != "ed" || es[len(es)-2].K != "e" {
+		return bad()
+	}
+	i := 3
+	for i < len(es) && es[i].K == "sa" && es[i].A == events.ArrayTypeString {
+		res.Keys = append(res.Keys, string(es[i].Data))
+		i++
+	}
+	if i+1 >= len(es) || es[i].K != "e" || es[i+1].K != "rec" {
+		return bad()
+	}
+	i += 2
+	end := len(es) - 2
+	for i < end {
+		j := c21SkipValue(es, i)
+		if j < 0 || j > end {
+			return bad()
+		}
+		res.Vals = append(res.Vals, evsString(es[i:j]))
+		i = j
+	}
+	plain := c21Cfg(snake, def, true)
+	leaves := c21AllLeaves(ty.Decls, nil, nil)
+	render := map[string]string{}
+	for _, p := range leaves {
+		if s, ok := c21Standalone(c21FieldAt(v, p), plain); ok {
+			render[c21Path(p)] = s
+		}
+	}
+	for _, val := range res.Vals {
+		cs := [][]int{}
+		for _, p := range leaves {
+			if s, ok := render[c21Path(p)]; ok && s == val {
+				cs = append(cs, p)
+			}
+		}
+		res.Cands = append(res.Cands, cs)
+	}
+	return res
+}
+
+// a record type declares, in tag order, every field that its omit flag (or the default) does not drop
+// outright; every record carries exactly those fields, empty or not
+func c21RecordOracle(ty *c21Type, snake bool, def int, res c21RecResult) (key, expect, got string) {
+	st := ty.IterSt
+	if st.Malformed {
+		return "", "", ""
+	}
+	kept := []c21Leaf{}
+	for _, l := range ty.IterLv {
+		o := l.Omit
+		if o == c21OmitDefault {
+			o = def
+		}
+		if o != c21OmitAlways {
+			kept = append(kept, l)
+		}
+	}
+	sort.SliceStable(kept, func(i, j int) bool { return kept[i].Order < kept[j].Order })
+	want := []c21KV{}
+	for _, l := range kept {
+		n := l.Name
+		if snake {
+			n = c21RefSnake(n)
+		}
+		want = append(want, c21KV{n, l.Path})
+	}
+	expect = c21KVString(want)
+	if res.Failed {
+		return c21EmbKey(st, "C21/record/error"), expect, "error: " + res.Msg
+	}
+	if res.ParseBad {
+		return c21EmbKey(st, "C21/record/shape"), expect, res.Msg
+	}
+	got = fmt.Sprintf("keys %q values %v", res.Keys, res.Cands)
+	if len(res.Keys) != len(want) {
+		return c21EmbKey(st, "C21/record/keys"), expect, got
+	}
+	for i, w := range want {
+		if res.Keys[i] != w.Key {
+			return c21EmbKey(st, "C21/record/keys"), expect, got
+		}
+	}
+	if len(res.Vals) != len(want) {
+		return c21EmbKey(st, "C21/record/values"), expect, got
+	}
+	for i, w := range want {
+		if !c21PathIn(w.Path, res.Cands[i]) {
+			return c21EmbKey(st, "C21/record/values"), expect, got
+		}
+	}
+	return "", "", ""
+}
+
+func c21RecordCaseTerm(ty *c21Type, v reflect.Value, snake bool, def int, res c21RecResult) (string, string) {
+	impl, human := "None", "error"
+	if !res.Failed && !res.ParseBad {
+		keys := []string{}
+		for _, k := range res.Keys {
+			keys = append(keys, c21Str(k))
+		}
+		vals := []string{}
+		for _, cs := range res.Cands {
+			ps := []string{}
+			for _, p := range cs {
+				ps = append(ps, c21Path(p))
+			}
+			vals = append(vals, cList(ps))
+		}
+		impl = cSome(cPair(cList(keys), cList(vals)))
+		human = fmt.Sprintf("keys %q values %v", res.Keys, res.Vals)
+	}
+	term := cApp("RecordCase", c21Utab(ty.Strs...), cBool(snake), c21OmitCoq[def], c21DeclsCoq(ty.Decls), impl)
+	return term, fmt.Sprintf("record %s {%s} snake=%v default=%s value=%+v -> %s", ty.Label, c21TypeString(ty.Decls), snake, c21OmitCoq[def], v.Interface(), human)
+}
+
+func c21RecordStep(sp c21TypeSpec, vseed int64, mode int, snake bool, def int) (ty *c21Type, v reflect.Value, res c21RecResult, key, expect, got string, err error) {
+	t, err := c21TypeOfSpec(sp)
+	if err != nil {
+		return nil, v, res, "", "", "", err
+	}
+	ty = c21NewType(t, c21SpecLabel(sp))
+	v = c21MakeValue(ty, vseed, mode)
+	res = c21RunRecord(ty, v, snake, def)
+	key, expect, got = c21RecordOracle(ty, snake, def, res)
 	return
 }
 
@@ -2033,9 +2276,9 @@ func c21DocJSON(d *c21Doc) string {
 // ---------------------------------------------------------------------------
 
 func runC21(c *Ctx) {
-	c.Rep.Rule = "marshal: 40 zoo struct types (embedding, every tag form, duplicate orders, every emptiness class, malformed tags) x 3+ values x 2 name styles x 5 omit defaults, " +
+	c.Rep.Rule = "marshal: 50 zoo struct types (embedding of structs and of non-struct types — named scalars/slices/maps/interfaces, pointers to structs nil and non-nil, at depth, tagged —, every tag form, duplicate orders, every emptiness class, malformed tags) x 3+ values x 2 name styles x 5 omit defaults, " +
 		"plus random reflect.StructOf types (random names incl. acronyms/digits/underscores/non-ASCII, random and malformed tags, embedded named structs); " +
-		"snake-case: generated names observed through a name= tag; unmarshal: per type x both case settings, one-key probes (renamed, re-cased, underscored, spaced, unknown keys) and whole documents " +
+		"each zoo type and a third of the random types also registered as a record type (record type keys and record values); snake-case: generated names observed through a name= tag; unmarshal: per type x both case settings, one-key probes (renamed, re-cased, underscored, spaced, unknown keys) and whole documents " +
 		"(reordered, renamed, extra keys with scalar/container values, defect probes with edge values and non-string keys). " +
 		"non-trivial = the type has at least one exported field and the tags are well-formed, or the document has at least one entry; distinct = distinct (type, value, configuration) or (type, setting, document)"
 	cf := c.Cases("fields", "CE.Model.Fields", "fields_case", "fields_case_ok")
@@ -2098,8 +2341,8 @@ func runC21(c *Ctx) {
 		specs = append(specs, c21GenSpec(rng, pct))
 	}
 
-	iterCases, lookupCases, buildCases := 0, 0, 0
-	maxIter, maxLookup, maxBuild := c.Pick(650, 6000), c.Pick(520, 5000), c.Pick(330, 4000)
+	iterCases, lookupCases, buildCases, recordCases := 0, 0, 0, 0
+	maxIter, maxLookup, maxBuild, maxRecord := c.Pick(650, 6000), c.Pick(520, 5000), c.Pick(330, 4000), c.Pick(300, 3000)
 
 	for si, sp := range specs {
 		t, err := c21TypeOfSpec(sp)
@@ -2109,6 +2352,8 @@ func runC21(c *Ctx) {
 		}
 		ty := c21NewType(t, c21SpecLabel(sp))
 		isZoo := si < nZoo
+		// zoo types with an embedded non-struct field always send their unmarshal cases to Coq; the others are sampled in the quick tier
+		prio := isZoo && (ty.BldSt.EmbPtr || ty.BldSt.EmbOther)
 		c.Dist(fmt.Sprintf("type/zoo=%v/malformed=%v/embedded=%v", isZoo, ty.IterSt.Malformed, strings.Contains(c21TypeString(ty.Decls), "embed ")))
 		if ty.IterSt.ExpDiffer {
 			c.Fail(Replay{Kind: "exported", Key: "C21/exported-predicates-differ", Input: map[string]string{"type": c21SpecJSON(sp)},
@@ -2159,6 +2404,30 @@ func runC21(c *Ctx) {
 					if isZoo && vi == 1 && cfgi == coqCfg && len(c.Rep.Samples) < 5 {
 						c.Sample(map[string]string{"iterate": human})
 					}
+				}
+			}
+		}
+
+		// ---- part 1b: the type registered as a record type
+		for vi, val := range values {
+			if vi >= 3 || (!isZoo && si%3 != 0) {
+				break
+			}
+			for k := 0; k < 2; k++ {
+				cfgi := rng.Intn(10)
+				snake, def := cfgi%2 == 0, cfgi/2
+				_, v, res, key, expect, got, _ := c21RecordStep(sp, val.seed, val.mode, snake, def)
+				c.Count(fmt.Sprintf("record|%s|%d|%d|%d", c21SpecJSON(sp), val.seed, val.mode, cfgi), len(ty.IterLv) > 0 && !ty.IterSt.Malformed)
+				c.Dist(fmt.Sprintf("record/failed=%v/keys=%d", res.Failed, len(res.Keys)))
+				if key != "" {
+					c.Fail(Replay{Kind: "record", Key: key, Expect: expect, Got: got,
+						Input: map[string]string{"type": c21SpecJSON(sp), "vseed": strconv.FormatInt(val.seed, 10), "mode": strconv.Itoa(val.mode),
+							"snake": strconv.FormatBool(snake), "default": strconv.Itoa(def), "go_type": c21TypeString(ty.Decls)}})
+				}
+				if recordCases < maxRecord {
+					term, human := c21RecordCaseTerm(ty, v, snake, def, res)
+					cf.Add(term, human)
+					recordCases++
 				}
 			}
 		}
@@ -2218,7 +2487,7 @@ func runC21(c *Ctx) {
 				if res.Hung {
 					break
 				}
-				if lookupCases < maxLookup {
+				if lookupCases < maxLookup && (prio || c.Thorough() || rng.Intn(100) < 30) {
 					obs := "LNone"
 					switch {
 					case res.Err || len(res.Fields) > 1:
@@ -2233,7 +2502,7 @@ func runC21(c *Ctx) {
 					lookupCases++
 				}
 			}
-			if c21Hung || ty.BldSt.Malformed || ty.BldSt.EmbPtr || ty.BldSt.EmbOther {
+			if c21Hung || ty.BldSt.Malformed {
 				continue
 			}
 
@@ -2308,7 +2577,7 @@ func runC21(c *Ctx) {
 				if res.Hung {
 					break
 				}
-				if !c21HasCollision(ty) && buildCases < maxBuild {
+				if !c21HasCollision(ty) && buildCases < maxBuild && (prio || c.Thorough() || rng.Intn(100) < 35) {
 					strs := append(append([]string{}, ty.Strs...), d.strings()...)
 					cf.Add(cApp("BuildCase", c21Utab(strs...), c21DeclsCoq(ty.Decls), cBool(ci), d.coq(), cBool(!res.Err), c21FieldsCoq(res.Fields)),
 						fmt.Sprintf("build %s {%s} ci=%v doc=%s -> err=%v %s", ty.Label, c21TypeString(ty.Decls), ci, d.String(), res.Err, res.Printed))
@@ -2338,7 +2607,7 @@ func runC21(c *Ctx) {
 			}
 		}
 	}
-	c.Rep.Extra["coq_cases"] = map[string]int{"iterate": iterCases, "lookup": lookupCases, "build": buildCases}
+	c.Rep.Extra["coq_cases"] = map[string]int{"iterate": iterCases, "lookup": lookupCases, "build": buildCases, "record": recordCases}
 	c.Rep.Extra["hung"] = c21Hung
 }
 
@@ -2379,6 +2648,22 @@ func replayC21(r *Replay) (bool, string) {
 			return false, err.Error()
 		}
 		return key == "", fmt.Sprintf("type {%s} value %+v: required [%s] emitted [%s] %s", c21TypeString(ty.Decls), v.Interface(), expect, got, key)
+	case "record":
+		var sp c21TypeSpec
+		if json.Unmarshal([]byte(r.Input["type"]), &sp) != nil {
+			return false, "bad replay input"
+		}
+		vseed, _ := strconv.ParseInt(r.Input["vseed"], 10, 64)
+		mode, _ := strconv.Atoi(r.Input["mode"])
+		def, _ := strconv.Atoi(r.Input["default"])
+		if def < 0 || def > 4 {
+			return false, "bad replay input"
+		}
+		ty, v, _, key, expect, got, err := c21RecordStep(sp, vseed, mode, r.Input["snake"] == "true", def)
+		if err != nil {
+			return false, err.Error()
+		}
+		return key == "", fmt.Sprintf("record type {%s} value %+v: required [%s] emitted [%s] %s", c21TypeString(ty.Decls), v.Interface(), expect, got, key)
 	case "build":
 		var sp c21TypeSpec
 		var d c21Doc
